@@ -290,4 +290,42 @@ theorem ReadsList.frame {N : Nat} {h h' : LHeap} (hag : ∀ a, N ≤ a → h'.ge
       ReadsList.frame hag hc ls ms' (fun c hcm => hm c (List.mem_cons_of_mem _ hcm)) h2⟩
 end
 
+/-! ### every location value can be laid out in memory -/
+
+mutual
+/-- `allocLoc l` (one new array per `Joined` / `Ordered`) reads as `l` -/
+theorem allocLoc_reads : ∀ (l : Loc) (h : LHeap),
+    h <+: (allocLoc l h).2 ∧ Reads (allocLoc l h).2 l (allocLoc l h).1
+  | .between _, h => ⟨List.prefix_refl _, (reads_contig rfl).2 rfl⟩
+  | .point _, h => ⟨List.prefix_refl _, (reads_contig rfl).2 rfl⟩
+  | .ranged .., h => ⟨List.prefix_refl _, (reads_contig rfl).2 rfl⟩
+  | .ambiguous .., h => ⟨List.prefix_refl _, (reads_contig rfl).2 rfl⟩
+  | .joined ls, h => by
+    have ih := allocList_reads ls h
+    unfold allocLoc
+    refine ⟨prefix_snoc ih.1 _, reads_joined.2 ⟨_, rfl, ?_, ?_⟩⟩
+    · simp [WF, get_append_length]
+    · simp only [Heap.read, get_append_length, List.drop_zero, List.take_length]
+      exact ReadsList.mono (prefix_snoc (List.prefix_refl _) _) _ _ ih.2
+  | .ordered ls, h => by
+    have ih := allocList_reads ls h
+    unfold allocLoc
+    refine ⟨prefix_snoc ih.1 _, reads_ordered.2 ⟨_, rfl, ?_, ?_⟩⟩
+    · simp [WF, get_append_length]
+    · simp only [Heap.read, get_append_length, List.drop_zero, List.take_length]
+      exact ReadsList.mono (prefix_snoc (List.prefix_refl _) _) _ _ ih.2
+  | .compl l, h => by
+    have ih := allocLoc_reads l h
+    unfold allocLoc
+    exact ⟨ih.1, reads_compl.2 ⟨_, rfl, ih.2⟩⟩
+theorem allocList_reads : ∀ (ls : List Loc) (h : LHeap),
+    h <+: (allocList ls h).2 ∧ ReadsList (allocList ls h).2 ls (allocList ls h).1
+  | [], h => ⟨List.prefix_refl _, by simp [allocList, ReadsList]⟩
+  | l :: ls, h => by
+    have i1 := allocLoc_reads l h
+    have i2 := allocList_reads ls (allocLoc l h).2
+    unfold allocList
+    exact ⟨i1.1.trans i2.1, readsList_cons.2 ⟨Reads.mono i2.1 _ _ i1.2, i2.2⟩⟩
+end
+
 end Gts.Mem
